@@ -279,7 +279,8 @@ class SInt:
     __hash__ = None
 
     def __index__(self):
-        raise RealisationError("symbolic int used as a concrete index")
+        # used as a list index / slice bound: concretise by forking over the feasible values
+        return ctx().concretise_int(self)
 
     def __int__(self):
         raise RealisationError("int() of a symbolic int")
@@ -781,6 +782,18 @@ class Ctx:
 
     def queue_push(self, prefix):
         self.queue.append(prefix)
+
+    def concretise_int(self, x, limit=64):
+        for _ in range(limit):
+            if self.model is None:
+                if self._check() != z3.sat:
+                    raise Infeasible("no model to concretise from")
+                self.model = self.solver.model()
+            v = self.model.eval(x.e, model_completion=True)
+            v = v.as_signed_long() if z3.is_bv_value(v) else v.as_long()
+            if self.decide(z3.simplify(x.e == self.int_val(v))):
+                return v
+        raise RealisationError("symbolic index with more than 64 feasible values")
 
     def fresh_name(self, base):
         self._fresh += 1
